@@ -119,6 +119,7 @@ package valid
 //@   ensures [C01 eq.verdict] atoiOk(es) && measureDefined(k) && fits53(n) ==> (isEq <==> measure(tv) == n)
 
 //@ func To
+//@   at call GetJoinValidErrStr#* assert [C02 C04 to.names] arg0 == objName$0 && arg1 == fieldName$0
 //@   at call GetJoinValidErrStr#* assert [C15 to.msg] ParseValidNameKV.cusMsg(validName) != "" ==> len(others) == 1 && others[0] == ParseValidNameKV.cusMsg(validName)
 //@   requires errBuf != nil && rv.valid(tv) && !rv.ro(tv)
 //@   let val = ParseValidNameKV.value(validName)
@@ -131,6 +132,7 @@ package valid
 //@   ensures [C01 to.verdict] wf && measureDefined(k) && fits53(lo) && fits53(hi) ==> ((sb.nw(errBuf) > old(sb.nw(errBuf))) <==> (measure(tv) < lo || measure(tv) > hi))
 
 //@ func OTo
+//@   at call GetJoinValidErrStr#* assert [C02 C04 oto.names] arg0 == objName$0 && arg1 == fieldName$0
 //@   at call GetJoinValidErrStr#* assert [C15 oto.msg] ParseValidNameKV.cusMsg(validName) != "" ==> len(others) == 1 && others[0] == ParseValidNameKV.cusMsg(validName)
 //@   requires errBuf != nil && rv.valid(tv) && !rv.ro(tv)
 //@   let val = ParseValidNameKV.value(validName)
@@ -143,6 +145,7 @@ package valid
 //@   ensures [C01 oto.verdict] wf && measureDefined(k) && fits53(lo) && fits53(hi) ==> ((sb.nw(errBuf) > old(sb.nw(errBuf))) <==> (measure(tv) <= lo || measure(tv) >= hi))
 
 //@ func Ge
+//@   at call GetJoinValidErrStr#* assert [C02 C04 ge.names] arg0 == objName$0 && arg1 == fieldName$0
 //@   at call GetJoinValidErrStr#* assert [C15 ge.msg] ParseValidNameKV.cusMsg(validName) != "" ==> len(others) == 1 && others[0] == ParseValidNameKV.cusMsg(validName)
 //@   requires errBuf != nil && rv.valid(tv) && !rv.ro(tv)
 //@   let val = ParseValidNameKV.value(validName)
@@ -151,6 +154,7 @@ package valid
 //@   ensures [C01 ge.verdict] atoiOk(val) && measureDefined(k) && fits53(atoi(val)) ==> ((sb.nw(errBuf) > old(sb.nw(errBuf))) <==> measure(tv) < atoi(val))
 
 //@ func Le
+//@   at call GetJoinValidErrStr#* assert [C02 C04 le.names] arg0 == objName$0 && arg1 == fieldName$0
 //@   at call GetJoinValidErrStr#* assert [C15 le.msg] ParseValidNameKV.cusMsg(validName) != "" ==> len(others) == 1 && others[0] == ParseValidNameKV.cusMsg(validName)
 //@   requires errBuf != nil && rv.valid(tv) && !rv.ro(tv)
 //@   let val = ParseValidNameKV.value(validName)
@@ -159,6 +163,7 @@ package valid
 //@   ensures [C01 le.verdict] atoiOk(val) && measureDefined(k) && fits53(atoi(val)) ==> ((sb.nw(errBuf) > old(sb.nw(errBuf))) <==> measure(tv) > atoi(val))
 
 //@ func Gt
+//@   at call GetJoinValidErrStr#* assert [C02 C04 gt.names] arg0 == objName$0 && arg1 == fieldName$0
 //@   at call GetJoinValidErrStr#* assert [C15 gt.msg] ParseValidNameKV.cusMsg(validName) != "" ==> len(others) == 1 && others[0] == ParseValidNameKV.cusMsg(validName)
 //@   requires errBuf != nil && rv.valid(tv) && !rv.ro(tv)
 //@   let val = ParseValidNameKV.value(validName)
@@ -167,6 +172,7 @@ package valid
 //@   ensures [C01 gt.verdict] atoiOk(val) && measureDefined(k) && fits53(atoi(val)) ==> ((sb.nw(errBuf) > old(sb.nw(errBuf))) <==> measure(tv) <= atoi(val))
 
 //@ func Lt
+//@   at call GetJoinValidErrStr#* assert [C02 C04 lt.names] arg0 == objName$0 && arg1 == fieldName$0
 //@   at call GetJoinValidErrStr#* assert [C15 lt.msg] ParseValidNameKV.cusMsg(validName) != "" ==> len(others) == 1 && others[0] == ParseValidNameKV.cusMsg(validName)
 //@   requires errBuf != nil && rv.valid(tv) && !rv.ro(tv)
 //@   let val = ParseValidNameKV.value(validName)
@@ -175,6 +181,7 @@ package valid
 //@   ensures [C01 lt.verdict] atoiOk(val) && measureDefined(k) && fits53(atoi(val)) ==> ((sb.nw(errBuf) > old(sb.nw(errBuf))) <==> measure(tv) >= atoi(val))
 
 //@ func Eq
+//@   at call GetJoinValidErrStr#* assert [C02 C04 eq.names] arg0 == objName$0 && arg1 == fieldName$0
 //@   at call GetJoinValidErrStr#* assert [C15 eq.msg] ParseValidNameKV.cusMsg(validName) != "" ==> len(others) == 1 && others[0] == ParseValidNameKV.cusMsg(validName)
 //@   requires errBuf != nil && rv.valid(tv) && !rv.ro(tv)
 //@   let val = ParseValidNameKV.value(validName)
@@ -183,6 +190,7 @@ package valid
 //@   ensures [C01 Eq.verdict] atoiOk(val) && measureDefined(k) && fits53(atoi(val)) ==> ((sb.nw(errBuf) > old(sb.nw(errBuf))) <==> measure(tv) != atoi(val))
 
 //@ func NoEq
+//@   at call GetJoinValidErrStr#* assert [C02 C04 noeq.names] arg0 == objName$0 && arg1 == fieldName$0
 //@   at call GetJoinValidErrStr#* assert [C15 noeq.msg] ParseValidNameKV.cusMsg(validName) != "" ==> len(others) == 1 && others[0] == ParseValidNameKV.cusMsg(validName)
 //@   requires errBuf != nil && rv.valid(tv) && !rv.ro(tv)
 //@   let val = ParseValidNameKV.value(validName)
@@ -338,6 +346,7 @@ package valid
 //@   ensures [C13 isstr.err] err != nil ==> safeErr(err)
 
 //@ func Phone
+//@   at call GetJoinValidErrStr#* assert [C02 C04 phone.names] arg0 == objName$0 && arg1 == fieldName$0
 //@   at call GetJoinValidErrStr#* assert [C15 phone.msg] ParseValidNameKV.cusMsg(validName) != "" ==> len(others) == 1 && others[0] == ParseValidNameKV.cusMsg(validName)
 //@   requires errBuf != nil && rv.valid(tv) && !rv.ro(tv)
 //@   modifies sb.content(errBuf), sb.nw(errBuf)
@@ -345,6 +354,7 @@ package valid
 //@   ensures [C02 phone.once] sb.nw(errBuf) <= old(sb.nw(errBuf)) + 1 && prefixof(old(sb.content(errBuf)), sb.content(errBuf))
 
 //@ func Email
+//@   at call GetJoinValidErrStr#* assert [C02 C04 email.names] arg0 == objName$0 && arg1 == fieldName$0
 //@   at call GetJoinValidErrStr#* assert [C15 email.msg] ParseValidNameKV.cusMsg(validName) != "" ==> len(others) == 1 && others[0] == ParseValidNameKV.cusMsg(validName)
 //@   requires errBuf != nil && rv.valid(tv) && !rv.ro(tv)
 //@   modifies sb.content(errBuf), sb.nw(errBuf)
@@ -352,6 +362,7 @@ package valid
 //@   ensures [C02 email.once] sb.nw(errBuf) <= old(sb.nw(errBuf)) + 1 && prefixof(old(sb.content(errBuf)), sb.content(errBuf))
 
 //@ func IDCard
+//@   at call GetJoinValidErrStr#* assert [C02 C04 idcard.names] arg0 == objName$0 && arg1 == fieldName$0
 //@   at call GetJoinValidErrStr#* assert [C15 idcard.msg] ParseValidNameKV.cusMsg(validName) != "" ==> len(others) == 1 && others[0] == ParseValidNameKV.cusMsg(validName)
 //@   requires errBuf != nil && rv.valid(tv) && !rv.ro(tv)
 //@   modifies sb.content(errBuf), sb.nw(errBuf)
@@ -359,6 +370,7 @@ package valid
 //@   ensures [C02 idcard.once] sb.nw(errBuf) <= old(sb.nw(errBuf)) + 1 && prefixof(old(sb.content(errBuf)), sb.content(errBuf))
 
 //@ func Ip
+//@   at call GetJoinValidErrStr#* assert [C02 C04 ip.names] arg0 == objName$0 && arg1 == fieldName$0
 //@   at call GetJoinValidErrStr#* assert [C15 ip.msg] ParseValidNameKV.cusMsg(validName) != "" ==> len(others) == 1 && others[0] == ParseValidNameKV.cusMsg(validName)
 //@   requires errBuf != nil && rv.valid(tv) && !rv.ro(tv)
 //@   modifies sb.content(errBuf), sb.nw(errBuf)
@@ -366,6 +378,7 @@ package valid
 //@   ensures [C02 ip.once] sb.nw(errBuf) <= old(sb.nw(errBuf)) + 1 && prefixof(old(sb.content(errBuf)), sb.content(errBuf))
 
 //@ func Ipv4
+//@   at call GetJoinValidErrStr#* assert [C02 C04 ipv4.names] arg0 == objName$0 && arg1 == fieldName$0
 //@   at call GetJoinValidErrStr#* assert [C15 ipv4.msg] ParseValidNameKV.cusMsg(validName) != "" ==> len(others) == 1 && others[0] == ParseValidNameKV.cusMsg(validName)
 //@   requires errBuf != nil && rv.valid(tv) && !rv.ro(tv)
 //@   modifies sb.content(errBuf), sb.nw(errBuf)
@@ -373,6 +386,7 @@ package valid
 //@   ensures [C02 ipv4.once] sb.nw(errBuf) <= old(sb.nw(errBuf)) + 1 && prefixof(old(sb.content(errBuf)), sb.content(errBuf))
 
 //@ func Ipv6
+//@   at call GetJoinValidErrStr#* assert [C02 C04 ipv6.names] arg0 == objName$0 && arg1 == fieldName$0
 //@   at call GetJoinValidErrStr#* assert [C15 ipv6.msg] ParseValidNameKV.cusMsg(validName) != "" ==> len(others) == 1 && others[0] == ParseValidNameKV.cusMsg(validName)
 //@   requires errBuf != nil && rv.valid(tv) && !rv.ro(tv)
 //@   modifies sb.content(errBuf), sb.nw(errBuf)
@@ -380,6 +394,7 @@ package valid
 //@   ensures [C02 ipv6.once] sb.nw(errBuf) <= old(sb.nw(errBuf)) + 1 && prefixof(old(sb.content(errBuf)), sb.content(errBuf))
 
 //@ func Year
+//@   at call GetJoinValidErrStr#* assert [C02 C04 year.names] arg0 == objName$0 && arg1 == fieldName$0
 //@   at call GetJoinValidErrStr#* assert [C15 year.msg] ParseValidNameKV.cusMsg(validName) != "" ==> len(others) == 1 && others[0] == ParseValidNameKV.cusMsg(validName)
 //@   requires errBuf != nil && rv.valid(tv) && !rv.ro(tv)
 //@   modifies sb.content(errBuf), sb.nw(errBuf)
@@ -387,6 +402,7 @@ package valid
 //@   ensures [C02 year.once] sb.nw(errBuf) <= old(sb.nw(errBuf)) + 1 && prefixof(old(sb.content(errBuf)), sb.content(errBuf))
 
 //@ func Prefix
+//@   at call GetJoinValidErrStr#* assert [C02 C04 prefix.names] arg0 == objName$0 && arg1 == fieldName$0
 //@   at call GetJoinValidErrStr#* assert [C15 prefix.msg] ParseValidNameKV.cusMsg(validName) != "" ==> len(others) == 1 && others[0] == ParseValidNameKV.cusMsg(validName)
 //@   requires errBuf != nil && rv.valid(tv) && !rv.ro(tv)
 //@   modifies sb.content(errBuf), sb.nw(errBuf)
@@ -394,6 +410,7 @@ package valid
 //@   ensures [C02 prefix.once] sb.nw(errBuf) <= old(sb.nw(errBuf)) + 1 && prefixof(old(sb.content(errBuf)), sb.content(errBuf))
 
 //@ func Suffix
+//@   at call GetJoinValidErrStr#* assert [C02 C04 suffix.names] arg0 == objName$0 && arg1 == fieldName$0
 //@   at call GetJoinValidErrStr#* assert [C15 suffix.msg] ParseValidNameKV.cusMsg(validName) != "" ==> len(others) == 1 && others[0] == ParseValidNameKV.cusMsg(validName)
 //@   requires errBuf != nil && rv.valid(tv) && !rv.ro(tv)
 //@   modifies sb.content(errBuf), sb.nw(errBuf)
@@ -401,6 +418,7 @@ package valid
 //@   ensures [C02 suffix.once] sb.nw(errBuf) <= old(sb.nw(errBuf)) + 1 && prefixof(old(sb.content(errBuf)), sb.content(errBuf))
 
 //@ func File
+//@   at call GetJoinValidErrStr#* assert [C02 C04 file.names] arg0 == objName$0 && arg1 == fieldName$0
 //@   at call GetJoinValidErrStr#* assert [C15 file.msg] ParseValidNameKV.cusMsg(validName) != "" ==> len(others) == 1 && others[0] == ParseValidNameKV.cusMsg(validName)
 //@   requires errBuf != nil && rv.valid(tv) && !rv.ro(tv)
 //@   modifies sb.content(errBuf), sb.nw(errBuf)
@@ -408,6 +426,7 @@ package valid
 //@   ensures [C02 file.once] sb.nw(errBuf) <= old(sb.nw(errBuf)) + 1 && prefixof(old(sb.content(errBuf)), sb.content(errBuf))
 
 //@ func Dir
+//@   at call GetJoinValidErrStr#* assert [C02 C04 dir.names] arg0 == objName$0 && arg1 == fieldName$0
 //@   at call GetJoinValidErrStr#* assert [C15 dir.msg] ParseValidNameKV.cusMsg(validName) != "" ==> len(others) == 1 && others[0] == ParseValidNameKV.cusMsg(validName)
 //@   requires errBuf != nil && rv.valid(tv) && !rv.ro(tv)
 //@   modifies sb.content(errBuf), sb.nw(errBuf)
@@ -415,6 +434,7 @@ package valid
 //@   ensures [C02 dir.once] sb.nw(errBuf) <= old(sb.nw(errBuf)) + 1 && prefixof(old(sb.content(errBuf)), sb.content(errBuf))
 
 //@ func Json
+//@   at call GetJoinValidErrStr#* assert [C02 C04 json.names] arg0 == objName$0 && arg1 == fieldName$0
 //@   at call GetJoinValidErrStr#* assert [C15 json.msg] ParseValidNameKV.cusMsg(validName) != "" ==> len(others) == 1 && others[0] == ParseValidNameKV.cusMsg(validName)
 //@   requires errBuf != nil && rv.valid(tv) && !rv.ro(tv)
 //@   modifies sb.content(errBuf), sb.nw(errBuf)
@@ -422,6 +442,7 @@ package valid
 //@   ensures [C02 json.once] sb.nw(errBuf) <= old(sb.nw(errBuf)) + 1 && prefixof(old(sb.content(errBuf)), sb.content(errBuf))
 
 //@ func Year2Month
+//@   at call GetJoinValidErrStr#* assert [C02 C04 year2month.names] arg0 == objName$0 && arg1 == fieldName$0
 //@   at call GetJoinValidErrStr#* assert [C15 year2month.msg] ParseValidNameKV.cusMsg(validName) != "" ==> len(others) == 1 && others[0] == ParseValidNameKV.cusMsg(validName)
 //@   requires errBuf != nil && rv.valid(tv) && !rv.ro(tv)
 //@   let val = ParseValidNameKV.value(validName)
@@ -431,6 +452,7 @@ package valid
 //@   ensures [C02 year2month.once] sb.nw(errBuf) <= old(sb.nw(errBuf)) + 1 && prefixof(old(sb.content(errBuf)), sb.content(errBuf))
 
 //@ func Date
+//@   at call GetJoinValidErrStr#* assert [C02 C04 date.names] arg0 == objName$0 && arg1 == fieldName$0
 //@   at call GetJoinValidErrStr#* assert [C15 date.msg] ParseValidNameKV.cusMsg(validName) != "" ==> len(others) == 1 && others[0] == ParseValidNameKV.cusMsg(validName)
 //@   requires errBuf != nil && rv.valid(tv) && !rv.ro(tv)
 //@   let val = ParseValidNameKV.value(validName)
@@ -440,6 +462,7 @@ package valid
 //@   ensures [C02 date.once] sb.nw(errBuf) <= old(sb.nw(errBuf)) + 1 && prefixof(old(sb.content(errBuf)), sb.content(errBuf))
 
 //@ func Int
+//@   at call GetJoinValidErrStr#* assert [C02 C04 int.names] arg0 == objName$0 && arg1 == fieldName$0
 //@   at call GetJoinValidErrStr#* assert [C15 int.msg] ParseValidNameKV.cusMsg(validName) != "" ==> len(others) == 1 && others[0] == ParseValidNameKV.cusMsg(validName)
 //@   requires errBuf != nil && rv.valid(tv) && !rv.ro(tv)
 //@   let k = rv.kind(tv)
@@ -450,6 +473,7 @@ package valid
 //@   ensures [C02 int.once] sb.nw(errBuf) <= old(sb.nw(errBuf)) + 1 && prefixof(old(sb.content(errBuf)), sb.content(errBuf))
 
 //@ func Float
+//@   at call GetJoinValidErrStr#* assert [C02 C04 float.names] arg0 == objName$0 && arg1 == fieldName$0
 //@   at call GetJoinValidErrStr#* assert [C15 float.msg] ParseValidNameKV.cusMsg(validName) != "" ==> len(others) == 1 && others[0] == ParseValidNameKV.cusMsg(validName)
 //@   requires errBuf != nil && rv.valid(tv) && !rv.ro(tv)
 //@   let k = rv.kind(tv)
@@ -635,6 +659,8 @@ package valid
 //@   ensures result == v && vs.ok(v)
 
 //@ func (*VStruct).required
+//@   at call GetJoinValidErrStr#* assert [C02 C04 required.names] arg0 == structName$0 && arg1 == fieldName$0
+//@   at call exist#0 assert [C04 required.nested] arg1 == false && arg2 == structName$0 && arg3 == fieldName$0 && arg5 == tv$0
 //@   let k = rv.kind(tv)
 //@   let empty = ((k == 23 || k == 17 || k == 21) && rv.len(tv) == 0) || rv.isZero(tv)
 //@   ensures [C03 required.violated] empty ==> sb.nw(v.errBuf) == old(sb.nw(v.errBuf)) + 1
@@ -645,13 +671,17 @@ package valid
 //@   ensures vs.ok(v) && cache.inv()
 
 //@ func (*VStruct).exist
+//@   at call GetJoinValidErrStr#* assert [C02 C04 exist.names] arg0 == structName$0 && arg1 == fieldName$0
+//@   at call validate#2 assert [C04 path.field] arg1 == structName$0 ++ "." ++ fieldName$0 && arg2 == tv$0
+//@   at call validate#1 assert [C04 path.index] arg1 == structName$0 ++ "." ++ fieldName$0 ++ "[" ++ decInt(i) ++ "]" && arg2 == rv.index(tv$0, i)
+//@   at call validate#0 assert [C04 path.key] arg1 == structName$0 ++ "." ++ fieldName$0 ++ "[" ++ ToStr(box("reflect.Value", rv.mapKey(tv$0, mi.pos(iter)))) ++ "]" && arg2 == rv.mapVal(tv$0, mi.pos(iter))
 //@   ensures [C04 exist.zero] rv.isZero(tv) ==> sb.nw(v.errBuf) == old(sb.nw(v.errBuf)) && sb.content(v.errBuf) == old(sb.content(v.errBuf))
 //@   ensures [C03 exist.scalar] !isValidTvKind && rv.kind(tv) != 22 && rv.kind(tv) != 25 && rv.kind(tv) != 23 && rv.kind(tv) != 17 && rv.kind(tv) != 21 ==> sb.nw(v.errBuf) == old(sb.nw(v.errBuf))
 //@   loop#0 exhaustive [C02 C04 C17 walk.all]
 //@   loop#1 exhaustive [C02 C04 C17 walk.all]
 //@   loop#0 entered_when [C02 C04 walk.enter] !rv.isZero(tv) && (rv.kind(tv) == 23 || rv.kind(tv) == 17)
 //@   loop#1 entered_when [C02 C04 walk.enter] !rv.isZero(tv) && rv.kind(tv) == 21
-//@   at call validate#0 reached_when [C02 C04 walk.enter] !rv.isZero(tv) && (rv.kind(tv) == 22 || rv.kind(tv) == 25) && rv.type(tv) != timeReflectType
+//@   at call validate#2 reached_when [C02 C04 walk.enter] !rv.isZero(tv) && (rv.kind(tv) == 22 || rv.kind(tv) == 25) && rv.type(tv) != timeReflectType
 //@   requires vs.ok(v) && cache.inv() && rv.valid(tv) && !rv.ro(tv)
 //@   modifies sb.content(v.errBuf), sb.nw(v.errBuf), cache.stored, lst.mem, lst.stamp, lst.size, mu.held, mu.acq, cb.count, cb.key, cb.val, "H.container/list.Element.Value", v.vc.valid2FieldsMap, "MapDom.String.Slice", "MapVal.String.Slice", "MapLen.String.Slice", "Mem.Int"
 //@   ensures vs.ok(v) && cache.inv()
@@ -659,6 +689,11 @@ package valid
 //@   loop#1 invariant vs.ok(v) && cache.inv() && iter != nil && mi.src(iter) == tv && mi.pos(iter) >= -1
 
 //@ func (*VStruct).validate
+//@   at call required#0 assert [C02 C04 path.required] arg1 == ite(structName$0 == "", cacheStructType.name, structName$0) && arg2 == cacheStructType.fieldInfos[fieldNum].name
+//@   at call exist#0 assert [C04 path.exist] arg1 == true && arg2 == ite(structName$0 == "", cacheStructType.name, structName$0) && arg3 == cacheStructType.fieldInfos[fieldNum].name && arg5 == rv.field(tv, fieldNum)
+//@   at call CommonValidFn#0 assert [C02 C04 path.rule] arg2 == ite(structName$0 == "", cacheStructType.name, structName$0) && arg3 == cacheStructType.fieldInfos[fieldNum].name
+//@   at call GetJoinFieldErr#0 assert [C02 C04 path.unknown] arg0 == ite(structName$0 == "", cacheStructType.name, structName$0) && arg1 == cacheStructType.fieldInfos[fieldNum].name
+//@   at call initValid2FieldsMap#0 assert [C04 C17 path.group] data.objName == ite(structName$0 == "", cacheStructType.name, structName$0)
 //@   at call initValid2FieldsMap#0 assert [C02 C17 group.member] data.objName == structName && data.fieldName == fieldInfo.name && data.validName == validName && data.cusMsg == ParseValidNameKV.cusMsg(validName) && data.reflectVal == rv.field(tv, fieldNum)
 //@   at call CommonValidFn#0 assert [C18 struct.carries] arg1 == validName && arg4 == rv.field(tv, fieldNum)
 //@   at call ValidNamesSplit#0 assert [C16 effective.rule] s == ite(cusRM != nil && len(cusRM) > 0 && fieldInfo.name != "" && has(cusRM, fieldInfo.name) && cusRM[fieldInfo.name] != "", cusRM[fieldInfo.name], cacheStructType.fieldInfos[fieldNum].validNames)
@@ -721,6 +756,10 @@ package valid
 //@   modifies sb.content(v.errBuf), sb.nw(v.errBuf), v.ruleMap, v.vc
 
 //@ func (*VStruct).Valid
+//@   at call validate#1 assert [C04 path.top.index] arg1 == rt.string(rv.type(rv.index(reflectValue, 0))) ++ "[" ++ decInt(i) ++ "]" && arg2 == rv.index(reflectValue, i)
+//@   at call validate#0 assert [C04 path.top.key] arg1 == "map[" ++ ToStr(box("reflect.Value", rv.mapKey(reflectValue, mi.pos(iter)))) ++ "]" && arg2 == rv.mapVal(reflectValue, mi.pos(iter))
+//@   at call validate#2 assert [C04 path.top.single] arg2 == reflectValue
+//@   loop#0 invariant [C04 path.top.name] i > 0 ==> structName == rt.string(rv.type(rv.index(reflectValue, 0)))
 //@   loop#0 entered_when [C02 C04 walk.enter] src != nil && rv.valid(reflectValue) && (rv.kind(reflectValue) == 23 || rv.kind(reflectValue) == 17)
 //@   loop#1 entered_when [C02 C04 walk.enter] src != nil && rv.valid(reflectValue) && rv.kind(reflectValue) == 21
 //@   at call validate#2 reached_when [C02 C04 walk.enter] src != nil && rv.valid(reflectValue) && rv.kind(reflectValue) == 25
@@ -784,6 +823,8 @@ package valid
 //@   ensures [C13 fn.unknown.err] result1 != nil ==> safeErr(result1)
 
 //@ func (*VVar).validate
+//@   at call CommonValidFn#0 assert [C02 C04 var.names] arg2 == "" && arg3 == ""
+//@   at call GetJoinValidErrStr#* assert [C02 C04 var.required.names] arg0 == "" && arg1 == ""
 //@   at call ValidNamesSplit#0 reached_when [C02 C03 walk.enter] validNames != ""
 //@   at call CommonValidFn#0 reached_when [C02 C03 walk.enter] validName != "" && err == nil && fn != nil && !rv.isZero(tv)
 //@   at call GetJoinFieldErr#1 reached_when [C02 C16 walk.enter] validName != "" && err != nil
@@ -829,8 +870,11 @@ package valid
 
 //@ func (*VMap).getKey
 //@   modifies nothing
+//@   ensures [C02 C04 map.key] result == ite(prefix == "" && key == "", "", ite(key == "", prefix ++ "map", prefix ++ "map[" ++ key ++ "]"))
 
 //@ func (*VMap).validate
+//@   at call CommonValidFn#0 assert [C02 C04 map.names] arg2 == "" && arg3 == ite(prefix$0 == "" && key == "", "", ite(key == "", prefix$0 ++ "map", prefix$0 ++ "map[" ++ key ++ "]")) && key == rv.str(rv.mapKey(tv$0, mi.pos(mapIter)))
+//@   at call GetJoinValidErrStr#* assert [C02 C04 map.required.names] arg0 == "" && arg1 == ite(prefix$0 == "" && key == "", "", ite(key == "", prefix$0 ++ "map", prefix$0 ++ "map[" ++ key ++ "]")) && key == rv.str(rv.mapKey(tv$0, mi.pos(mapIter)))
 //@   loop#0 entered_when [C02 C03 walk.enter] rv.kind(tv) == 21 && rt.kind(rt.key(rv.type(tv))) == 24
 //@   at call ValidNamesSplit#0 reached_when [C02 C03 walk.enter] validNames != ""
 //@   at call CommonValidFn#0 reached_when [C02 C03 walk.enter] validName != "" && err == nil && fn != nil && !rv.isZero(val)
@@ -878,6 +922,8 @@ package valid
 //@   ensures [C13 fn.unknown.err] result1 != nil ==> safeErr(result1)
 
 //@ func (*VUrl).validate
+//@   at call CommonValidFn#0 assert [C02 C04 url.names] arg2 == "" && arg3 == key
+//@   at call GetJoinValidErrStr#* assert [C02 C04 url.required.names] arg0 == "" && arg1 == key
 //@   at call Split#0 assert [C01 C03 C17 C18 url.query] s == ite(indexof(decUrl, "?") == -1, "", decUrl[indexof(decUrl, "?")+1:]) && sep == "&"
 //@   at call ValidNamesSplit#0 reached_when [C02 C03 walk.enter] validNames != ""
 //@   at call CommonValidFn#0 reached_when [C02 C03 walk.enter] validName != "" && err == nil && fn != nil && val != ""
@@ -974,6 +1020,7 @@ package valid
 //@   ensures [C05 include.pred] result == contains(tvVal, v)
 
 //@ func in
+//@   at call GetJoinValidErrStr#* assert [C02 C04 in.names] arg0 == objName$0 && arg1 == fieldName$0
 //@   let kv = ParseValidNameKV.value(validName)
 //@   let li = indexof(kv, "(")
 //@   let ri = lastIndexOf(kv, ")")
@@ -1008,6 +1055,7 @@ package valid
 //@   ensures [C02 include.once] sb.nw(errBuf) <= old(sb.nw(errBuf)) + 1 && prefixof(old(sb.content(errBuf)), sb.content(errBuf))
 
 //@ func Re
+//@   at call GetJoinValidErrStr#* assert [C02 C04 re.names] arg0 == objName$0 && arg1 == fieldName$0
 //@   requires errBuf != nil && rv.valid(tv) && !rv.ro(tv)
 //@   modifies sb.content(errBuf), sb.nw(errBuf)
 //@   ensures [C02 re.once] sb.nw(errBuf) <= old(sb.nw(errBuf)) + 1 && prefixof(old(sb.content(errBuf)), sb.content(errBuf))
@@ -1020,6 +1068,7 @@ package valid
 // ints: a string is judged piece by piece (strings.Split at the separator in force: the rule's value, "," when it has none);
 // a slice or array element by element on its canonical rendering; integer kinds always pass
 //@ func Ints
+//@   at call GetJoinValidErrStr#* assert [C02 C04 ints.names] arg0 == objName$0 && arg1 == fieldName$0
 //@   let sp = ite(ParseValidNameKV.value(validName) == "", ",", ParseValidNameKV.value(validName))
 //@   let k = rv.kind(tv)
 //@   ensures [C05 ints.verdict.str] k == 24 && sb.nw(errBuf) > old(sb.nw(errBuf)) ==> exists(j Int :: {splitAt(rv.str(tv), sp, j)} 0 <= j && j < splitCount(rv.str(tv), sp) && !matches(IntRe, splitAt(rv.str(tv), sp, j)))
@@ -1043,6 +1092,7 @@ package valid
 //@ spec elemStr(v RVal, j Int) String = ToStr(rv.iface(rv.index(v, j)))
 //@ spec dupQ(v RVal, n Int) Bool = exists(a Int, b Int :: {rv.index(v, a), rv.index(v, b)} 0 <= a && a < b && b < n && elemStr(v, a) == elemStr(v, b))
 //@ func Unique
+//@   at call GetJoinValidErrStr#* assert [C02 C04 unique.names] arg0 == objName$0 && arg1 == fieldName$0
 //@   let k = rv.kind(tv)
 //@   ensures [C05 unique.verdict.str] k == 24 ==> ((sb.nw(errBuf) > old(sb.nw(errBuf))) <==> dupS(rv.str(tv), splitCount(rv.str(tv), ",")))
 //@   ensures [C05 unique.verdict.seq] (k == 17 || k == 23) ==> ((sb.nw(errBuf) > old(sb.nw(errBuf))) <==> dupQ(tv, rv.len(tv)))
@@ -1062,6 +1112,7 @@ package valid
 // datetime: the value parses under the layout built from the separators in force: the first three comma-separated pieces of
 // the rule's (quote-trimmed) value replace, in order, the date separator "-", the date/time separator " " and the time separator ":"
 //@ func Datetime
+//@   at call GetJoinValidErrStr#* assert [C02 C04 datetime.names] arg0 == objName$0 && arg1 == fieldName$0
 //@   let pv = ParseValidNameKV.value(validName)
 //@   let ptr = trimSet(pv, "'")
 //@   let pn = splitCount(ptr, ",")
